@@ -13,10 +13,9 @@ from ..framework import Prop
 from . import hailvalues as hv
 
 # known defect classes, keyed by their canonical minimal witness (see known_findings.json).  The class 'dict-missing-entry'
-# (tdict converted keys/values without the None check) was repaired by /repo commit 1824f18d5 and is a plain violation again.
+# (tdict converted keys/values without the None check) was repaired by /repo commit 1824f18d5, the class 'struct-field-named-self' (hl.Struct(self=…)) by c88553592: plain violations again.
 CLASS_WITNESS = {
     'ndarray-non-numeric': {'type': ['ndarray', ['str'], 0], 'value': ['nd', [], [''], 'C']},
-    'struct-field-named-self': {'type': ['struct', [['self', ['i32']]]], 'value': ['st', [1]]},
 }
 
 
@@ -90,7 +89,7 @@ def strip_known(t, v, cls):
                 out.append([a2, strip_known(t[2], b, cls)])
         return ['dict', out]
     if k == 'struct':
-        return ['st', [strip_known(ft, x, cls) for (_, ft), x in zip(t[1], v[1])]]
+        return ['st', [strip_known(ft, x, cls) for (_, ft), x in zip(t[1], v[1])]] + v[2:]
     if k == 'tuple':
         return ['tup', [strip_known(et, x, cls) for et, x in zip(t[1], v[1])]]
     if k == 'ndarray':
@@ -201,13 +200,6 @@ class C32(Prop):
             return None
         # attribute the failure to the known classes only if removing every occurrence of them repairs the round trip (removing
         # one class can uncover the other — an unsupported n-d array that is a dict value becomes a missing dict value)
-        # a struct field named `self` (hl.Struct cannot hold it): attributed only if renaming the field repairs the round trip
-        if '"self"' in json.dumps(t):
-            t2 = json.loads(json.dumps(t).replace('["self",', '["self_renamed",'))
-            if json.dumps(t2) != json.dumps(t) and '["self",' not in json.dumps(t2):
-                c2 = {'type': t2, 'value': v}
-                if self.oracle(c2, ['ok']) is None:
-                    return f'[class=struct-field-named-self] {why}'
         cur = v
         applied = []
         for _ in range(6):
